@@ -139,7 +139,7 @@ claim(
     "C05",
     "Lean 4 proof (logical relation between evaluation under the override environment and evaluation of the substituted circuit; inversion of the rebuild through the builder model) + whole-dump differential correspondence with fill_in_let under random override dictionaries",
     "Theorems C05_meaning, C05_no_consts, C05_shadow(_gate/_qubit), C05_frame, C05_revalidate, C05_shrink_rejected, C05_idempotent_val prove for every well-formed circuit and every override dictionary that the result means, under the empty environment, what the original means with each constant bound to its overriding value if given else its declared value; that no constant is left in any gate argument, index, size, bound, loop or subcircuit count (body, macros, registers); that macro parameters shadowing a constant are untouched; that block kinds, subcircuit annotations, macros, natives and usepulses are preserved; and that indices are re-checked against the NEW sizes (an override shrinking a register below a used index is rejected).",
-    COMMON_NOTE + "C05_idempotent_full is a named proposition (needs totality of the rebuild); checked on the model and by a direct oracle.",
+    COMMON_NOTE + "C05_idempotent_full (a second fill_in_let with ANY override dictionary returns the circuit unchanged) is proved as C05_idempotent in Props/C10.lean (Lemmas/PassesIdem.lean). One open known finding (defaulted-stop-frozen: `map c a[1:]` over an alias whose size depends on an overridden let keeps the stop computed at build time) is a genuine deviation from the property recorded in known_findings.txt; the model reproduces the code: C05_meaning is about the BUILT circuit, in which that stop is already a number, so the deviation sits between the text and the built circuit under overrides; the direct oracle meaning_under_overrides exhibits it and the check prints it as KNOWN-FINDING.",
     "DESIGN.md §7 C05",
 )
 claim(
@@ -153,15 +153,15 @@ claim(
 claim(
     "C10",
     "Lean 4 proof (canonical-form theorem for applicable pass sequences; legality preserved by every pass; flags = passes) + pipeline table regenerated from the Python ASTs + differential correspondence over random pass sequences",
-    "Theorems C10_canonical, C10_commute_meaning, C10_commute_perm, the six pairwise C10_comm_* lemmas, C10_idempotent_macros / _subs / _meaning, C10_flags(_ok), C10_legal_preserved, C10_applicable_of_legal prove that any orders and repetitions of an applicable sequence of the four passes give the same meaning (with 'applicable' made precise: every intermediate circuit legal, and alias fill-in not baking in a let that the overrides in force change; subcircuit expansion acts through the semantic map spellSem), that expanding macros or subcircuits twice returns the same circuit and every pass applied twice means what it means once, that every pass preserves legality (both well-formedness predicates and the deep register-chain invariant), and that the parser's expand flags are exactly the passes applied to the plain parse. The pass orders of parse_jaqal_string / run_jaqal_circuit / parse_jaqal_output_list are read out of the Python ASTs on every run and compared with the model's table.",
-    COMMON_NOTE + "Named propositions, not proved: syntactic idempotence of the two rebuilding passes (C10_idempotent_let_full / _map_full) and the text-level legality statement (C10_legal_text_partial has C01's round trip as hypothesis); both are covered by direct oracles (idempotent, legal_after_pass). One open known finding (defaulted-stop-frozen, see C05) can surface under overrides.",
+    "Theorems C10_canonical, C10_commute_meaning, C10_commute_perm, the six pairwise C10_comm_* lemmas, C10_idempotent (all four passes: a second application returns the same circuit; for fill_in_let with any second override dictionary) and C10_idempotent_meaning, C10_flags(_ok), C10_legal_preserved, C10_applicable_of_legal prove that any orders and repetitions of an applicable sequence of the four passes give the same meaning (with 'applicable' made precise: every intermediate circuit legal, and alias fill-in not baking in a let that the overrides in force change; subcircuit expansion acts through the semantic map spellSem), that every pass applied twice returns what it returns once, that every pass preserves legality (both well-formedness predicates and the deep register-chain invariant), and that the parser's expand flags are exactly the passes applied to the plain parse. The pass orders of parse_jaqal_string / run_jaqal_circuit / parse_jaqal_output_list are read out of the Python ASTs on every run and compared with the model's table.",
+    COMMON_NOTE + "Legality is the model's decidable predicate `Legal` (what the builder accepts); that the generated TEXT of a legal circuit parses back (C10_legal_text_partial) has C01's round trip as hypothesis and is covered by the direct oracle legal_after_pass. One open known finding (defaulted-stop-frozen, see C05) can surface under overrides; it is excluded by `Applicable`.",
     "DESIGN.md §7 C10",
 )
 claim(
     "C16",
     "Lean 4 proof (totality and error-class theorems for parse + build on every text; class lemmas for every later stage; model purity) + direct oracles on the real entry points over hostile inputs, call histories and fresh subprocesses",
-    "C16_parse_build_total proves, for EVERY character string and configuration, that parsing and building fail only with JaqalParseError / JaqalError / ImportError — never another exception class, never non-termination (no fuel exhaustion); C16_pos_parse that a parse error's position is a token start of the text, the offset where lexing fails, or EOF; C05_total_class, C09_total_class, C04_total_class and the execution-stage class lemmas (discovery, disjointness, resolution, serialisation, C08_terminates) do the same for each later stage on typed circuits, and C16_total_partial composes them for the whole run under two named structural hypotheses that are checked on every generated program; C16_deterministic / C16_history_perm / C16_history_interleave state purity of the model. The rest of the property lives in the Python process and is checked by direct oracles: only JaqalError / ImportError over valid programs, token and character damage, every prefix, deep nesting, huge literals, missing and clashing pulse modules, no / two registers; error positions; termination under an alarm; outcome independent of call history in one process and equal to a fresh interpreter's.",
-    COMMON_NOTE + "CPython's recursion limit, memory exhaustion and numpy's sampler are runtime behaviour outside the model (converted to JaqalError at the entry points; tested). The two remaining hypotheses of C16_total_partial (the built circuit is WellFormed; the expanded circuit is flat-typed) are stated in Props/C16.lean with the missing lemmas named.",
+    "C16_total proves, for EVERY character string, configuration (gate set, autoload switch, import function) and override list, with no hypothesis, that the whole run parse → build → expand_subcircuits → fill_in_let → expand_macros → discovery / disjointness / resolution / serialisation → execute fails only with JaqalParseError / JaqalError / ImportError — never another exception class, never non-termination (no fuel exhaustion); it composes C02_no_fuel_error, C16_parse_build_total, built_typed / built_scoped / built_fits, C09_total_class, C05_total_class, C04_total_class, expand_flat, flatT_execClass, C03_serialize and C08_terminates. C16_pos proves that a parse error's position is EOF or the line and column of a token start of the text / of the character the lexer refuses. C16_deterministic / C16_history_perm / C16_history_interleave state purity of the model. The part of the property that lives in the Python process is checked by direct oracles: only JaqalError / ImportError over valid programs, token and character damage, every prefix, deep nesting (blocks, loops, macro chains), huge literals, missing and clashing pulse modules, no / two registers; error positions; termination under an alarm; outcome independent of call history in one process and equal to a fresh interpreter's.",
+    COMMON_NOTE + "CPython's recursion limit, memory exhaustion and numpy's sampler are runtime behaviour outside the model (converted to JaqalError at the entry points by fix commits; tested by the oracles, not proved). Error positions of JaqalErrors raised after parsing are not part of the model (the library attaches none there).",
     "DESIGN.md §7 C16",
 )
 
